@@ -7,7 +7,9 @@ Regenerated into a `facts` record (coq/Model/Replace.v):
   * the ORDER of the two guards at the top of the field loop (`field.name not in changes` / `not field.init`) and the
     exception raised for a change to an init=False field,
   * the two halves of the recursion condition (value is a dataclass instance / change is a dict),
-  * whether left-over keys are still handed to dataclasses.replace (`replace_kwargs.update(changes)`).
+  * whether left-over keys are still handed to dataclasses.replace (`replace_kwargs.update(changes)`),
+  * for replace_subgroups: the keyword, the order of the two guards of ITS field loop, its exception classes, whether a
+    dict selection without the keyword KEEPS the current member (`keep_member`), whether left-over selections raise.
 Everything else that the hand-written model depends on (the bodies of unflatten/flatten, the pops, the final
 dataclasses.replace call, ...) is compared with the exact text the model was written against: any other shape fails closed.
 
@@ -189,14 +191,20 @@ def _replace_facts(mod):
 
 # ---- replace_subgroups ---------------------------------------------------------------------------
 
+SUB_SPLIT_OLD = ("if isinstance(selection, dict):\n    value_of_selection = selection.pop(keyword, None)\n    child_selections = selection\n"
+                 "else:\n    value_of_selection = selection\n    child_selections = None")
+SUB_SPLIT_KEEP = ("if isinstance(selection, dict):\n"
+                  "    keep_member = keyword not in selection and is_dataclass_instance(field_value)\n"
+                  "    value_of_selection = selection.pop(keyword, None)\n    child_selections = selection\n"
+                  "else:\n    keep_member = False\n    value_of_selection = selection\n    child_selections = None")
+
 SUB_LOOP_TAIL = [
     "field_value = getattr(obj, field.name)",
     "field_annotation = get_field_type_from_annotations(obj.__class__, field.name)",
     "new_value = None",
     None,  # the annotation test (exception class extracted)
     "selection = selections.pop(field.name)",
-    "if isinstance(selection, dict):\n    value_of_selection = selection.pop(keyword, None)\n    child_selections = selection\n"
-    "else:\n    value_of_selection = selection\n    child_selections = None",
+    None,  # splitting the selection (with or without the keep-member test)
     None,  # the resolution chain
     "if child_selections:\n    new_value = replace_subgroups(field_value, child_selections)\nelse:\n    new_value = field_value",
     "replace_kwargs[field.name] = new_value",
@@ -234,7 +242,7 @@ def _subgroups_facts(mod):
     if [x.arg for x in fn.args.args] != ["obj", "selections"] or unparse(kw_defaults(fn).get("selections", ast.Constant(0))) != "None":
         raise Unrecognised("replace_subgroups signature")
     body = clean(fn.body)
-    if len(body) != 6:
+    if len(body) not in (6, 7):
         raise Unrecognised("replace_subgroups: %d top-level statements" % len(body))
     kwa = body[0]
     if not (isinstance(kwa, ast.Assign) and unparse(kwa.targets[0]) == "keyword"):
@@ -243,7 +251,13 @@ def _subgroups_facts(mod):
     _expect(body[1], "if not selections:\n    return obj", "replace_subgroups: empty selections")
     _expect(body[2], "selections = _unflatten_selection_dict(selections, keyword, recursive=False)", "replace_subgroups: unflattening")
     _expect(body[3], "replace_kwargs = {}", "replace_subgroups: kwargs")
-    _expect(body[5], "return dataclasses.replace(obj, **replace_kwargs)", "replace_subgroups: final call")
+    _expect(body[-1], "return dataclasses.replace(obj, **replace_kwargs)", "replace_subgroups: final call")
+    leftover_check, leftover_err = False, "ValueError"
+    if len(body) == 7:
+        lo = body[5]
+        if not (isinstance(lo, ast.If) and unparse(lo.test) == "selections" and not lo.orelse and len(clean(lo.body)) == 1):
+            raise Unrecognised("replace_subgroups: statement between the loop and the final call: " + unparse(lo)[:160])
+        leftover_check, leftover_err = True, _exc_name(clean(lo.body)[0])
     loop = body[4]
     if not isinstance(loop, ast.For) or unparse(loop.target) != "field" or unparse(loop.iter) != "dataclasses.fields(obj)" or loop.orelse:
         raise Unrecognised("replace_subgroups: field loop header")
@@ -274,8 +288,16 @@ def _subgroups_facts(mod):
             and not ann.orelse and len(clean(ann.body)) == 1):
         raise Unrecognised("replace_subgroups: annotation test")
     nodc_err = _exc_name(clean(ann.body)[0])
+    split = unparse(rest[5])
+    if split not in (SUB_SPLIT_OLD, SUB_SPLIT_KEEP):
+        raise Unrecognised("replace_subgroups: splitting the selection: " + split[:300])
     arms, els = if_chain(rest[6])
     got = [(unparse(t), [unparse(x) for x in b]) for t, b in arms]
+    keep_member = bool(got) and got[0] == ("keep_member", [])
+    if keep_member:
+        got = got[1:]
+    if keep_member != (split == SUB_SPLIT_KEEP):
+        raise Unrecognised("replace_subgroups: keep_member is computed but not used first in the chain (or the reverse)")
     if got != SUB_CHAIN:
         raise Unrecognised("replace_subgroups: resolution chain changed: " + str(got)[:400])
     if len(els) != 1:
@@ -292,7 +314,7 @@ def _subgroups_facts(mod):
         raise Unrecognised("_unflatten_selection_dict: sep default is not '.', but rest keys are re-joined with '.'")
     if _body_text(us) != UNFLATTEN_SEL_BODY:
         raise Unrecognised("_unflatten_selection_dict body changed")
-    return keyword, sep, guards[0] == "noninit", noninit_err, nodc_err, invalid_err
+    return keyword, sep, guards[0] == "noninit", noninit_err, nodc_err, invalid_err, keep_member, leftover_check, leftover_err
 
 
 def _b(x):
@@ -304,7 +326,7 @@ def emit(repo: str) -> str:
     mod = parse(repo, "simple_parsing/replace.py")
     sep, jsep = _utils_facts(utils)
     both_err, noninit_first, noninit_err, need_dc, need_dict, leftover = _replace_facts(mod)
-    keyword, ssep, s_first, s_noninit_err, s_nodc_err, s_invalid_err = _subgroups_facts(mod)
+    keyword, ssep, s_first, s_noninit_err, s_nodc_err, s_invalid_err, s_keep, s_lo, s_lo_err = _subgroups_facts(mod)
     return (
         "From SPV Require Import Base.Str Model.Replace.\nOpen Scope string_scope.\n"
         f"(* unflatten_split sep={sep!r}, flatten_join sep={jsep!r} *)\n"
@@ -319,7 +341,7 @@ def emit(repo: str) -> str:
         "(* replace_subgroups *)\n"
         "Definition sfacts_gen : sfacts :=\n"
         f"  mksfacts {cstr(keyword)} (ascii_of_nat {ord(ssep)}) {_b(s_first)} {cstr(s_noninit_err)} {cstr(s_nodc_err)} "
-        f"{cstr(s_invalid_err)}.\n"
+        f"{cstr(s_invalid_err)} {_b(s_keep)} {_b(s_lo)} {cstr(s_lo_err)}.\n"
         "Definition rsub_gen := rsub sfacts_gen.\n"
         "Definition unflatten_selection_gen := unflatten_selection sfacts_gen.\n"
     )
